@@ -244,6 +244,9 @@ class PeerBase:
         return [r['pkt'] for r in self.rx if r['seq'] > seq]
 
 
+LAST_RECS = []     # recorders of closed worlds (differential checks read it)
+
+
 class World:
     mode = None
 
@@ -480,6 +483,9 @@ class AsyncWorld(World):
         if self.closed:
             return
         self.closed = True
+        self.rec.final_len = len(self.rec.events)
+        LAST_RECS.append(self.rec)
+        del LAST_RECS[:-4]
         try:
             self.loop.shutdown_sim()
         finally:
@@ -729,6 +735,9 @@ class ThreadWorld(World):
         if self.closed:
             return
         self.closed = True
+        self.rec.final_len = len(self.rec.events)
+        LAST_RECS.append(self.rec)
+        del LAST_RECS[:-4]
         try:
             self.stuck = self.kernel.shutdown()
         finally:
